@@ -91,8 +91,15 @@ type spec struct {
 	ikeys []int32  // IntMap keys in insertion order
 }
 
-// build constructs the real golib value.
+// build constructs the real golib value; every node of it (children before their container)
+// is entered into the ledger of live values (history.go).
 func build(s *spec) value.Value {
+	v := build0(s)
+	led.node(s, v, "built")
+	return v
+}
+
+func build0(s *spec) value.Value {
 	switch s.code {
 	case cNull:
 		return value.NewNullValue()
